@@ -55,6 +55,7 @@ type sgen struct {
 	writes   int
 	spawn    bool
 	budget   int
+	pureMid  int // functions that use no ancestor binding themselves (their descendants do)
 }
 
 func id(n string) *gen.Ident { return &gen.Ident{Name: n} }
@@ -95,6 +96,16 @@ func (g *sgen) fn(level int, env []vref) *gen.FuncLit {
 	}
 	mine := []vref{{d, level}}
 	var body []gen.Stmt
+	// a "pure middle" function uses no binding of its ancestors itself: its descendants are the first to
+	// capture them, from frames further down the call stack
+	pure := level >= 2 && level < g.maxDepth && g.r.Chance(1, 3)
+	if pure {
+		g.pureMid++
+	}
+	ownEnv := env
+	if pure {
+		ownEnv = nil
+	}
 	// own locals, some initialised from enclosing bindings
 	nl := 1 + g.r.Intn(2)
 	if g.r.Chance(1, 8) {
@@ -103,8 +114,8 @@ func (g *sgen) fn(level int, env []vref) *gen.FuncLit {
 	for i := 0; i < nl; i++ {
 		v := g.fresh("v")
 		var init gen.Expr = num(g.r.Intn(5))
-		if len(env) > 0 && g.r.Chance(1, 2) {
-			e := mon.Pick(g.r, env)
+		if len(ownEnv) > 0 && g.r.Chance(1, 2) {
+			e := mon.Pick(g.r, ownEnv)
 			init = &gen.Binary{Op: "+", L: id(e.name), R: num(g.r.Intn(3))}
 			g.noteCap(level, e.level)
 		}
@@ -112,6 +123,7 @@ func (g *sgen) fn(level int, env []vref) *gen.FuncLit {
 		mine = append(mine, vref{v, level})
 	}
 	all := append(append([]vref{}, env...), mine...)
+	own := append(append([]vref{}, ownEnv...), mine...) // what this function itself reads and writes
 	mutate := func(scope []vref) gen.Stmt {
 		e := mon.Pick(g.r, scope)
 		g.noteCap(level, e.level)
@@ -127,7 +139,7 @@ func (g *sgen) fn(level int, env []vref) *gen.FuncLit {
 	}
 	nops := 1 + g.r.Intn(3)
 	for i := 0; i < nops; i++ {
-		body = append(body, mutate(all))
+		body = append(body, mutate(own))
 	}
 	// children
 	var rets []gen.Expr
@@ -203,14 +215,14 @@ func (g *sgen) fn(level int, env []vref) *gen.FuncLit {
 				place(g.fn(level+1, all), &body, false)
 			}
 			if g.r.Chance(1, 2) {
-				body = append(body, mutate(all)) // the creator keeps changing the bindings after creation
+				body = append(body, mutate(own)) // the creator keeps changing the bindings after creation
 			}
 		}
 	}
 	// result: own view of some bindings + returned children
 	var view []gen.Expr
-	for i := 0; i < 2 && i < len(all); i++ {
-		e := mon.Pick(g.r, all)
+	for i := 0; i < 2 && i < len(own); i++ {
+		e := mon.Pick(g.r, own)
 		g.noteCap(level, e.level)
 		view = append(view, id(e.name))
 	}
